@@ -6,6 +6,7 @@ From Flocq Require Import IEEE754.BinarySingleNaN.
 From SU Require Import F32 F32Lemmas.
 From SU.Model Require Import Adsr Quantizer Midi.
 From SU.Proofs Require Import ClampProofs.
+From SU.Proofs Require Import AdsrKillers.
 Open Scope R_scope.
 
 (** the bounds, as literals: 0.001 (as an f32: 0x3a83126f) and 20.0 *)
@@ -60,9 +61,17 @@ Theorem C20_channel_clamp : forall ch : Z, (0 <= ch < 256)%Z ->
   rx_new ch = rx_new (Z.min ch 15) /\ r_channel (rx_new ch) = Z.min ch 15.
 Proof. exact channel_clamp. Qed.
 
+(** the documented defaults: fastest times, 100% sustain *)
+Theorem C20_new_defaults : forall fs,
+  a_attack (adsr_new fs) = MIN_TIME /\ a_decay (adsr_new fs) = MIN_TIME /\
+  a_release (adsr_new fs) = MIN_TIME /\ a_sustain (adsr_new fs) = f_1 /\
+  a_von (adsr_new fs) = f_0 /\ a_voff (adsr_new fs) = f_0.
+Proof. exact new_defaults. Qed.
+
 Print Assumptions C20_time_bounds.
 Print Assumptions C20_time_clamp.
 Print Assumptions C20_sustain_clamp.
 Print Assumptions C20_same_behaviour.
 Print Assumptions C20_note_clamp.
 Print Assumptions C20_channel_clamp.
+Print Assumptions C20_new_defaults.
